@@ -135,7 +135,8 @@ let validate file =
         | "TSTART" -> if a >= 1 && a < maxt then (started.(a) <- true; newpar.(a) <- b; dirty := true) else bad 23 line t
         | "TERM" -> if a >= 1 && a < maxt then (dying.(a) <- true; dirty := true)
         | "TJOIN" -> ()
-        | "ACQ" | "REL" | "RDSEARCHU" | "RDPARAMS" -> decr nevents   (* C09 lock / access events: not part of the C10 replay *)
+        | "ACQ" | "REL" | "RDSEARCHU" | "RDPARAMS"
+        | "SETOPT" | "OPTTAKE" | "RDFIN" | "WOPT" | "ROPT" | "WTT" | "RTT" -> decr nevents   (* C09 lock / access events: not part of the C10 replay *)
         | "TEXIT" -> if a = 0 then finished := true
         | _ when skip -> ()
         | "N" ->
